@@ -65,6 +65,42 @@ def const_handles(ck, F, prefix, only=None):
                  'the implementation class)', loc=f['loc'], fn=fid)
 
 
+def setters_rule(ck, F, prefix):
+    # what the client sets on one declaration is set on that declaration: a setter that writes into the bookkeeping shared by the
+    # whole decl-set changes what earlier declarations of the set report
+    R_set = ck.rule(f'{prefix}.setters-write-own-node', 'a setter of a declaration class (specifiers) stores into the declaration object itself: no write '
+                    'goes through the pointer to the data shared by all declarations of the decl-set, which would change what an earlier '
+                    'declaration reports when a later one is given its own specifiers', floor=2)
+    from symex import Sym as _SymS, Unsupported as _UnsS
+    _Ss = _SymS(F, opaque=contracts.default_opaque(F), max_depth=32)
+    setters = [f for f in F.fn.values() if (f.get('parent') or '').startswith('ipr::impl::Decl<') and f.get('body') and not f['id'].endswith(' const')
+               and not f.get('ctor') and not f.get('dtor') and f.get('params') and (f.get('ret') or '') == 'void']
+    if len(setters) < 2:
+        raise AnalysisBroken(f'setters of impl::Decl<...> instantiated by the probe: {[f["id"] for f in setters]}')
+
+    def through_pointer(t):
+        # does the location go through a dereference (shared storage) rather than staying inside `this`?
+        while isinstance(t, tuple) and t:
+            if t[0] == 'deref':
+                return True
+            if t[0] in ('fld', 'index'):
+                t = t[1]
+            elif t[0] == 'castto':
+                t = t[2]
+            else:
+                break
+        return False
+    for f in sorted(setters, key=lambda f: f['id']):
+        try:
+            outs = _Ss.run(f['id'], this=('sym', 'this'))
+        except _UnsS as e:
+            raise AnalysisBroken(f'{f["id"]}: {e}')
+        bad = sorted({contracts.render(e[1], st, {})[:70] for st, k, v in outs for e in st.effects if e[0] == 'write' and through_pointer(e[1])})
+        ck.check(R_set, contracts.short(contracts.fn_qname(f['id'])), not bad, f'{f["id"]} writes {bad}: storage reached through a pointer, shared with the other '
+                 'declarations of the set', loc=f['loc'], fn=f['id'])
+
+
+
 def run(ck, F):
     ck.explanation = (
         'Reference stability is a property of the container kind, independent of history: every member or base of the '
@@ -190,38 +226,13 @@ def run(ck, F):
     import c11 as _c11
     _c08.run(_c11._Only(ck, {'descent'}), F, prefix='C05')
 
-    # what the client sets on one declaration is set on that declaration: a setter that writes into the bookkeeping shared by the
-    # whole decl-set changes what earlier declarations of the set report
-    R_set = ck.rule('C05.setters-write-own-node', 'a setter of a declaration class (specifiers) stores into the declaration object itself: no write '
-                    'goes through the pointer to the data shared by all declarations of the decl-set, which would change what an earlier '
-                    'declaration reports when a later one is given its own specifiers', floor=2)
-    from symex import Sym as _SymS, Unsupported as _UnsS
-    _Ss = _SymS(F, opaque=contracts.default_opaque(F), max_depth=32)
-    setters = [f for f in F.fn.values() if (f.get('parent') or '').startswith('ipr::impl::Decl<') and f.get('body') and not f['id'].endswith(' const')
-               and not f.get('ctor') and not f.get('dtor') and f.get('params') and (f.get('ret') or '') == 'void']
-    if len(setters) < 2:
-        raise AnalysisBroken(f'setters of impl::Decl<...> instantiated by the probe: {[f["id"] for f in setters]}')
-
-    def through_pointer(t):
-        # does the location go through a dereference (shared storage) rather than staying inside `this`?
-        while isinstance(t, tuple) and t:
-            if t[0] == 'deref':
-                return True
-            if t[0] in ('fld', 'index'):
-                t = t[1]
-            elif t[0] == 'castto':
-                t = t[2]
-            else:
-                break
-        return False
-    for f in sorted(setters, key=lambda f: f['id']):
-        try:
-            outs = _Ss.run(f['id'], this=('sym', 'this'))
-        except _UnsS as e:
-            raise AnalysisBroken(f'{f["id"]}: {e}')
-        bad = sorted({contracts.render(e[1], st, {})[:70] for st, k, v in outs for e in st.effects if e[0] == 'write' and through_pointer(e[1])})
-        ck.check(R_set, contracts.short(contracts.fn_qname(f['id'])), not bad, f'{f["id"]} writes {bad}: storage reached through a pointer, shared with the other '
-                 'declarations of the set', loc=f['loc'], fn=f['id'])
+    setters_rule(ck, F, 'C05')
+    # what a scope answered for a name keeps being the answer: its tables are searched the way they are filled (one total order per
+    # table, every component compared with itself), and the member stores behind the homogeneous scopes keep entry order
+    import c07 as _c07
+    _c07.scope_keys(ck, F, 'C05')
+    import c17 as _c17
+    _c17.insertion_order(ck, F, 'C05')
 
     # a node that is shared by everyone who asks for the same thing is handed out read-only
     const_handles(ck, F, 'C05')
@@ -387,19 +398,8 @@ def run(ck, F):
     _c03.arena_bounds(ck, F, prefix='C05')
 
     # what a node refers to outlives the call that built it
-    R_cs = ck.rule('C05.no-reference-to-call-storage', 'no reference or pointer member of an object that outlives the factory call (a node in a pool or a '
-                   'table) designates storage of the call itself -- a parameter taken by value, a local or a temporary: after the call '
-                   'returns such a member dangles (it reads a dead stack slot, and two nodes built that way alias each other)', floor=200)
     import history as _history
-    import wire as _wire
-    from symex import Sym as _Sym2
-    _S2 = _Sym2(F, opaque=contracts.default_opaque(F), max_depth=64)
-    for _f in sorted(_wire.all_factories(F), key=lambda f: f['id']):
-        _r = _history.call_storage_refs(F, _S2, _f)
-        _sid = '::'.join(contracts.fn_qname(_f['id']).split('::')[-2:]) + '/' + str(len(_f['params']))
-        if _r is None:
-            continue
-        ck.check(R_cs, _sid, not _r, f'{_f["id"]}: ' + '; '.join(_r[:3]), loc=_f['loc'], fn=_f['id'])
+    _history.call_storage_rule(ck, F, 'C05')
 
     # immotile: copy/move disabled for node classes (supporting fact)
     movable = [n for n in sorted(node_like) if not F.rec[n]['abstract'] and F.derives_from(n, 'ipr::Node')
